@@ -135,6 +135,7 @@ def bi_open(it, a, k):
     mode = vals.concrete_str(a[1]) if len(a) > 1 else "r"
     if mode is None:
         raise Unsupported("open() with symbolic mode")
+    it.path.effects.append(("Fs", p))
     d, nm = split_path(it, p)
     key = dir_state(it, d)
     dom, sub = get(it, key, "dom"), get(it, key, "sub")
@@ -194,6 +195,7 @@ def os_lstat(it, a, k):
 
 def os_listdir(it, a, k):
     p = a[0]
+    it.path.effects.append(("Fs", p))
     key = dir_state(it, p.t)
     dom, sub = get(it, key, "dom"), get(it, key, "sub")
     kk = z3.FreshConst(STR, "k")
@@ -208,11 +210,35 @@ def os_listdir(it, a, k):
 
 def os_isdir(it, a, k):
     p = a[0]
+    it.path.effects.append(("Fs", p))
     parts = getattr(p, "parts", None)
     if parts is None:
         return VBool(uf("fs.isdir", STR, BOOL)(p.t))
     key = dir_state(it, parts[0].t)
     return VBool(z3.Select(get(it, key, "sub"), parts[1].t))
+
+
+def os_exists(it, a, k):
+    p = a[0]
+    it.path.effects.append(("Fs", p))
+    parts = getattr(p, "parts", None)
+    if parts is None:
+        return VBool(uf("fs.exists", STR, BOOL)(p.t))
+    key = dir_state(it, parts[0].t)
+    return VBool(z3.Or(z3.Select(get(it, key, "sub"), parts[1].t), z3.Select(get(it, key, "dom"), parts[1].t)))
+
+
+def os_makedirs(it, a, k):
+    p = a[0]
+    it.path.effects.append(("Mkdir", p))
+    parts = getattr(p, "parts", None)
+    if parts is not None:
+        key = dir_state(it, parts[0].t)
+        sub, dom = get(it, key, "sub"), get(it, key, "dom")
+        if it.path.branch(z3.Or(z3.Select(sub, parts[1].t), z3.Select(dom, parts[1].t))):
+            it.raise_builtin("FileExistsError")
+        put(it, key, "sub", z3.Store(sub, parts[1].t, z3.BoolVal(True)))
+    return NONE
 
 
 def shutil_rmtree(it, a, k):
@@ -237,6 +263,10 @@ def install(reg):
     E["os.lstat"] = VNative(os_lstat, "os.lstat")
     E["os.listdir"] = VNative(os_listdir, "os.listdir")
     E["os.path.isdir"] = VNative(os_isdir, "os.path.isdir")
+    E["os.path.exists"] = VNative(os_exists, "os.path.exists")
+    E["os.path.lexists"] = VNative(os_exists, "os.path.lexists")
+    E["os.makedirs"] = VNative(os_makedirs, "os.makedirs")
+    E["os.mkdir"] = VNative(os_makedirs, "os.mkdir")
     reg.opaques.setdefault("StatResult", type("O", (), {"name": "StatResult", "attrs": {}, "bases": [], "truthy": "true", "iter": None, "isa": [], "as_int": None, "nonneg": False})())
 
     def fs_has(it, a, k):
@@ -255,4 +285,14 @@ def install(reg):
         key = dir_state(it, a[0].t)
         return VSet(VStr(S("")), get(it, key, "sub"))
 
+    def fs_isdir(it, a, k):
+        """is os.path.join(root, relpath.lstrip('/')) a directory (same term the code builds)"""
+        from ..strings import strip_model
+
+        root, rel = a[0], a[1]
+        stripped = strip_model(it, rel, VStr(S("/")), left=True, right=False)
+        key = dir_state(it, root.t)
+        return VBool(z3.Select(get(it, key, "sub"), stripped.t))
+
+    reg.spec_natives["fs_isdir"] = fs_isdir
     reg.spec_natives.update(fs_has=fs_has, fs_data=fs_data, fs_files=fs_files, fs_subdirs=fs_subdirs)
